@@ -75,3 +75,101 @@ def div_by_nonzero_const(body, bb):
             if a is not None and b == 0 and a != 0:
                 return True
     return False
+
+
+def logic_body(prog, fn_name, anchors):
+    """The member of the family of `fn_name` (the function itself or a nested closure / async block,
+    e.g. under #[tracing::instrument]) that contains a call to one of `anchors` (normalised names)."""
+    roots = body_by_name(prog, fn_name)
+    if len(roots) != 1:
+        return None
+    best = None
+    for b in family(prog, roots[0]):
+        for bb, t in b.calls():
+            if any(n in anchors for n in callee_names(t)):
+                if best is None or len(b.blocks) > len(best.blocks):
+                    best = b
+                break
+    return best
+
+
+def switch_atom(body, sw_bb):
+    """Describe what a switchInt on a bool tests.  Returns dict or None:
+       {kind: 'call', call_bb, names} | {kind: 'cmp', op, lhs (operand), rhs (operand)}
+       plus 'true' / 'false' targets (after undoing `Not`)."""
+    blk = body.blocks[sw_bb]
+    t = blk["t"]
+    if t["k"] != "switch" or t.get("ty") != "bool":
+        return None
+    d = op_local(t["discr"])
+    if d is None:
+        return None
+    zero = [b for v, b in t["targets"] if v == 0]
+    if not zero:
+        return None
+    tt, ff = t["otherwise"], zero[0]
+    cur = d
+    bb = sw_bb
+    for _ in range(8):
+        # definition of cur in this block (scan backwards)
+        found = None
+        for s in reversed(body.blocks[bb]["s"]):
+            if s["k"] == "assign" and s["place"]["l"] == cur and not s["place"]["p"]:
+                found = s
+                break
+        if found is not None:
+            rv = found["rv"]
+            if rv["k"] == "unop" and rv["op"] == "Not":
+                cur = op_local(rv["a"])
+                tt, ff = ff, tt
+                if cur is None:
+                    return None
+                continue
+            if rv["k"] == "use" and op_local(rv["op"]) is not None:
+                cur = op_local(rv["op"])
+                continue
+            if rv["k"] == "binop" and rv["op"] in ("Eq", "Ne", "Lt", "Le", "Gt", "Ge"):
+                return {"kind": "cmp", "op": rv["op"], "lhs": rv["a"], "rhs": rv["b"], "true": tt, "false": ff, "bb": sw_bb}
+            return None
+        # defined by the call that ends a (unique) predecessor
+        preds = [p for p in body.preds()[bb] if not body.blocks[p]["cleanup"]]
+        if len(preds) != 1:
+            return None
+        pb = preds[0]
+        pt = body.blocks[pb]["t"]
+        if pt["k"] == "call" and pt["dest"]["l"] == cur and not pt["dest"]["p"]:
+            return {"kind": "call", "call_bb": pb, "names": callee_names(pt), "true": tt, "false": ff, "bb": sw_bb,
+                    "args": pt["args"]}
+        bb = pb
+    return None
+
+
+def last_named_field(place):
+    """Name of the last named struct field in a place's projection (e.g. 'recv_buf')."""
+    name = None
+    for e in place["p"]:
+        if isinstance(e, dict) and "f" in e and e.get("n") is not None:
+            name = e["n"]
+    return name
+
+
+def ref_field_of_local(body, local, depth=4):
+    """If `local` holds `&[mut] <place>` (possibly reborrowed): last named field of that place."""
+    for _ in range(depth):
+        defs = [s for bb, i, s in body.stmts() if s["k"] == "assign" and s["place"]["l"] == local and not s["place"]["p"]]
+        if len(defs) != 1:
+            return None
+        rv = defs[0]["rv"]
+        if rv["k"] == "ref":
+            n = last_named_field(rv["place"])
+            if n is not None:
+                return n
+            if rv["place"]["p"] == ["*"]:
+                local = rv["place"]["l"]
+                continue
+            return None
+        if rv["k"] == "use" and op_local(rv["op"]) is not None:
+            local = op_local(rv["op"])
+            continue
+        return None
+    return None
